@@ -810,6 +810,12 @@ class ExprMixin:
         sub = Frame(fr.module, fr.func, parent=fr, is_spec=fr.is_spec)
         sub.contract = fr.contract
         xv = elem.wrap(x)
+        # a comprehension in CODE whose body calls a function that may raise (contract with raises_when): the element-
+        # wise raising conditions are collected and lifted to `any(... for x in it)` -- the comprehension raises iff
+        # some element does (apply_contract records them in binder_raises instead of forking under the binder)
+        lifting = self.merge_depth == 0 and self.spec_depth == 0 and not fr.is_spec
+        saved_br = getattr(self, "binder_raises", None)
+        self.binder_raises = [] if lifting else None
         self.merge_depth += 1
         saved = len(self.run.ctx)
         try:
@@ -821,9 +827,15 @@ class ExprMixin:
                 ok = z3.And(ok, c)
                 self.run.ctx.append(c)
             val = self.eval(e.elt, sub)
+            lifted = list(self.binder_raises or [])
         finally:
             del self.run.ctx[saved:]
             self.merge_depth -= 1
+            self.binder_raises = saved_br
+        for rw, cls in lifted:
+            some = self.seq_pred_recfun("any", it, x, z3.And(simp(ok), rw))
+            if self.decide(some):
+                raise RaiseSig(VExc(cls))
         from .ex import _type_of_value
         oty = _type_of_value(val)
         body_val = oty.pack(val)
